@@ -92,6 +92,72 @@ impl VectorSpace for UserVec {
     type Scalar = f64;
 }
 
+/// A user's own scalar whose order is genuinely partial: a closed interval. Two intervals that
+/// overlap are neither less, equal nor greater — `partial_cmp` is `None` for perfectly finite
+/// values, not only for NaN.
+#[derive(Copy, Clone, Debug, PartialEq, Serialize, Deserialize)]
+pub struct Interval {
+    pub lo: f64,
+    pub hi: f64,
+}
+impl Interval {
+    pub fn new(lo: f64, hi: f64) -> Interval {
+        Interval { lo, hi }
+    }
+}
+impl PartialOrd for Interval {
+    fn partial_cmp(&self, o: &Interval) -> Option<std::cmp::Ordering> {
+        if self == o {
+            Some(std::cmp::Ordering::Equal)
+        } else if self.hi < o.lo {
+            Some(std::cmp::Ordering::Less)
+        } else if self.lo > o.hi {
+            Some(std::cmp::Ordering::Greater)
+        } else {
+            None
+        }
+    }
+}
+macro_rules! interval_op {
+    ($tr:ident, $m:ident, $tra:ident, $ma:ident, $op:tt) => {
+        impl std::ops::$tr for Interval {
+            type Output = Interval;
+            fn $m(self, o: Interval) -> Interval {
+                Interval { lo: self.lo $op o.lo, hi: self.hi $op o.hi }
+            }
+        }
+        impl std::ops::$tra for Interval {
+            fn $ma(&mut self, o: Interval) {
+                *self = *self $op o;
+            }
+        }
+    };
+}
+interval_op!(Add, add, AddAssign, add_assign, +);
+interval_op!(Sub, sub, SubAssign, sub_assign, -);
+interval_op!(Mul, mul, MulAssign, mul_assign, *);
+interval_op!(Div, div, DivAssign, div_assign, /);
+interval_op!(Rem, rem, RemAssign, rem_assign, %);
+impl Zero for Interval {
+    fn zero() -> Self {
+        Interval { lo: 0.0, hi: 0.0 }
+    }
+    fn is_zero(&self) -> bool {
+        self.lo == 0.0 && self.hi == 0.0
+    }
+}
+impl One for Interval {
+    fn one() -> Self {
+        Interval { lo: 1.0, hi: 1.0 }
+    }
+}
+impl cgmath::num_traits::Num for Interval {
+    type FromStrRadixErr = ();
+    fn from_str_radix(_s: &str, _r: u32) -> Result<Self, ()> {
+        Err(())
+    }
+}
+
 /// A user's own rotation representation.
 #[derive(Clone, Debug, PartialEq, Serialize, Deserialize)]
 pub enum UserRot {
@@ -232,6 +298,7 @@ exo!(
     Decomposed<Vector1<f64>, Vector3<Rad<f32>>>,
     Decomposed<Vector3<i64>, Quaternion<i64>>,
     Decomposed<Vector2<u64>, (u8, i8)>,
+    Decomposed<Vector3<Interval>, Quaternion<Interval>>,
 );
 
 fn read_event<T: Exo>(m: Medium, root: &Node, rf: &[RFault]) -> (Result<T, String>, Vec<FiredR>) {
@@ -474,5 +541,19 @@ pub fn run_all(only: Option<&str>) -> ExoticReport {
     c!("rot=Vector3<Rad<f32>>", 1.0f64, Vector3::new(Rad(0.5f32), Rad(-0.0), Rad(3.0)), Vector1::new(9.0f64));
     c!("scale=i64::MIN", i64::MIN, Quaternion::new(1i64, 2, 3, 4), Vector3::new(i64::MAX, -1, 0));
     c!("scale=u64::MAX", u64::MAX, (1u8, -2i8), Vector2::new(u64::MAX, 0));
+    // a user scalar with a partial order: scale and components that are unordered w.r.t. zero / each other
+    let iv = Interval::new;
+    c!(
+        "scalar=Interval straddling zero",
+        iv(-1.0, 2.0),
+        Quaternion::new(iv(0.5, 0.75), iv(-0.0, 0.0), iv(-3.0, -2.0), iv(1e-310, 1.0)),
+        Vector3::new(iv(-5.0, 5.0), iv(1.0, 1.0), iv(-0.0, 7.0))
+    );
+    c!(
+        "scalar=Interval away from zero",
+        iv(2.0, 3.0),
+        Quaternion::new(iv(1.0, 1.0), iv(2.0, 2.5), iv(3.0, 3.5), iv(4.0, 4.5)),
+        Vector3::new(iv(5.0, 6.0), iv(7.0, 8.0), iv(9.0, 10.0))
+    );
     rep
 }
